@@ -201,7 +201,7 @@ class Sniffer:
         elif t == 'ABORT':
             if m['resv'] != b'\xFF\xFF\xFF':
                 self.problem('reserved_byte', by, 'Abort bytes 3-5 are %s, not FFFFFF' % m['resv'].hex())
-            s = self.live.get((sa, da, None)) or self.live.get((da, sa, None))
+            s = self._abort_target(sa, da, None, m['pgn'])
             rec = dict(t=fr.t, by=by, by_addr=sa, to_addr=da, reason=m['reason'], pgn=m['pgn'], idx=fr.idx)
             if s is not None and s.mode == 'cmdt':
                 s.frames.append(fr.idx)
@@ -211,6 +211,14 @@ class Sniffer:
                 self.stray_aborts.append(rec)
 
     stray_aborts = None
+
+    def _abort_target(self, sa, da, ses, pgn):
+        """an abort may come from either end; sessions in both directions can be open at once, the PGN tells them apart"""
+        cands = [x for x in (self.live.get((sa, da, ses)), self.live.get((da, sa, ses))) if x is not None and x.mode == 'cmdt']
+        for x in cands:
+            if x.pgn == pgn:
+                return x
+        return None
 
     def _dt21(self, fr, f):
         by = fr.src
@@ -335,7 +343,7 @@ class Sniffer:
                 self.problem('eoma_premature', by, 'FD EOM ack before the EOM status')
             self._close(s, 'complete', fr.t)
         elif t == 'ABORT':
-            s = self.live.get((sa, da, ses)) or self.live.get((da, sa, ses))
+            s = self._abort_target(sa, da, ses, m['pgn'])
             rec = dict(t=fr.t, by=by, by_addr=sa, to_addr=da, reason=m['reason'], pgn=m['pgn'], idx=fr.idx, session=ses)
             if s is not None and s.mode == 'cmdt':
                 s.frames.append(fr.idx)
